@@ -833,6 +833,15 @@ int harness_main(int argc, char **argv, const char *harness, const char *propert
     // We do this by running with a permissive verifier: copy n/chosen/label and let kinds be set
     // from the first run (pass 1), then run again traced (pass 2).
     printf("replay %s: %zu choices, tier %s\n", g_replay_path.c_str(), replay.size(), tier.c_str());
+    if (!g_opt.get("warmup").empty() && g_opt.fork_per_exec) {
+      // reproduce the explorer's process image: one default execution in this process first
+      g_slot->depth = 0;
+      bool savecache = g_opt.cache;
+      g_opt.cache = false;
+      run_exec(false);
+      g_opt.cache = savecache;
+      printf("(warm-up execution done, result %d)\n", g_slot->result);
+    }
     // pass 1: discover kinds
     Slot *s = g_slot;
     s->depth = 0;
